@@ -291,6 +291,15 @@ def check(an: Analysis) -> None:
             ob.inst(scope, c, "nested branch")
     if not nested_ok:
         ob.fail(scope, None, "MetricsContext.scope never passes the current scope as parent of the new one")
+    # end to end (shared with C19): whatever logger / trace id is given, a scope built while another is current is linked to it
+    from .c19 import evaluate_scope_construction
+
+    for row in evaluate_scope_construction(an):
+        if row["ctor"] is None or not row["has_current"]:
+            continue
+        ob.inst(scope, row["ctor"].ast, row["situation"])
+        if row["kw"].get("parent") is not row.get("CUR"):
+            ob.fail(scope, row["ctor"].ast, f"with {row['situation']} the new scope is not linked to the current scope (parent = {row['kw'].get('parent')!r}): the enclosing scope completes - and fires its callback - while this one is still running")
 
     # ------------------------------------------------------------------ C09.6 callee-assert preconditions
     ob = an.ob(
